@@ -77,7 +77,11 @@ fn main() {
         let mut seen = std::collections::BTreeSet::new();
         for _ in 0..n {
             let tape = vcheck::gen::g_rec().new_tree(&mut runner).unwrap().current();
-            let spec = vcheck::gen::build_rec(&tape);
+            let spec = match args.get(3).map(|s| s.as_str()) {
+                Some("weird") => vcheck::gen::build_rec_weird(&tape),
+                Some("kw") => vcheck::gen::build_kw(&tape),
+                _ => vcheck::gen::build_rec(&tape),
+            };
             let text = spec.render();
             let fresh = seen.insert(text.split("terminals").next().unwrap_or("").to_string());
             match vcheck::compile::compile(&text, &vcheck::compile::Cfg::lr()) {
